@@ -98,7 +98,7 @@ def tyOf : TEnv → Expr → Res Ty
       | .never => .unsup
       | _ => .ill
   | g, .ifElse c t e => (tyOf g c).bind fun tc =>
-      if !eqv tc .bool then .ill else
+      if !(eqv tc .bool || eqv tc .never) then .ill else       -- a condition of type `!` never yields a value
       (tyOf g t).bind fun tt =>
       match e with
       | some e => (tyOf g e).bind fun te => okW (concat tt te)
